@@ -2,6 +2,7 @@ import FractopoModel.Spec.Defects
 import FractopoModel.Generated.JunctionShift
 import FractopoModel.Generated.ValidatorTable
 import FractopoModel.Spec.Validators
+import FractopoModel.Lemmas.NodeJunctions
 /-!
 # C02 — validation verdicts on crisp configurations
 
@@ -75,6 +76,45 @@ theorem C02_spec_no_defect (traces : List Polyline) (i : Nat) (l : Polyline) (hl
     intro m hm; simp [(h2 m hm).2.2]
   simp only [e1, e2, e3, e4]
   simp
+
+/-! ### junction marking as a whole (regenerated loops of `determine_node_junctions`) -/
+
+/-- **V NODE / MULTI JUNCTION marking is the documented one.** The regenerated `determine_node_junctions` -- both loops, the removal
+of the current trace's own block from the flattened point series, the index shift (the site of defect F13), `.iloc`, the distance
+mask, the error threshold, the marking of the trace and of the owners of the close points -- marks trace `k` exactly when the
+specification `Spec.junctionMarks` does: some point has at least `max threshold 1` points of OTHER traces strictly within
+`t·m`, and `k` owns that point or one of those points. For every list of node tuples (any number of traces, empty tuples
+included), any thresholds, any distance function; the spatial-index query only has to return duplicate-free positions that
+include every position within `t·m` (`QueryLaw`), in any order, with any extras. -/
+theorem C02_generated_junctions {P : Type} (query : P → Rat → List Nat) (dist : P → P → Rat) (nodes : List (List P)) (t m : Rat) (thr : Nat)
+    (hq : NodeJunctions.QueryLaw query dist (NodeJunctions.flat nodes) (t * m) (t * m * 10)) (k : Nat) :
+    k ∈ Gen.determine_node_junctions query dist nodes t m thr ↔
+      k ∈ Spec.junctionMarks dist (NodeJunctions.ownersFrom 0 nodes) (NodeJunctions.flat nodes) (t * m) thr :=
+  NodeJunctions.generated_eq_spec query dist nodes t m thr hq k
+
+/-- V NODE is junction marking of the trace ENDS with threshold 1, MULTI JUNCTION of ALL nodes with threshold 2 (regenerated) -/
+theorem C02_junction_callers : Gen.vnode_error_threshold = 1 ∧ Gen.junction_error_threshold = 2 := by decide
+
+/-- a trace none of whose points has a point of another trace within `t·m` is not marked by its own points, and no point
+fires at all when all traces are farther than `t·m` apart: nothing is marked (no false positive on crisp, separated maps) -/
+theorem C02_no_marks_when_separated {P : Type} (dist : P → P → Rat) (o : List Nat) (f : List P) (d : Rat) (thr : Nat)
+    (hsep : ∀ a b x y, f[a]? = some x → f[b]? = some y → o.getD b 0 ≠ o.getD a 0 → ¬ dist y x < d) :
+    Spec.junctionMarks dist o f d thr = [] := by
+  unfold Spec.junctionMarks
+  rw [List.flatMap_eq_nil_iff]
+  rintro ⟨pt, a⟩ hmem
+  have ha : f[a]? = some pt := by simpa using List.mem_zipIdx_iff_getElem?.mp hmem
+  have hnil : Spec.junctionHits dist o f d a pt = [] := by
+    rw [List.eq_nil_iff_forall_not_mem]
+    intro b hb
+    obtain ⟨y, hy, hne, hd⟩ := (NodeJunctions.mem_hits dist o f d a pt b).mp hb
+    exact hsep a b pt y ha hy hne hd
+  simp [hnil]
+
+/-- non-vacuity: traces 0 and 1 share an end (distance 0), trace 2 is far: with threshold 1 the first two are marked -/
+example :
+    Gen.determine_node_junctions (fun (_ : Nat) _ => [0, 1, 2, 3, 4, 5]) (fun (p q : Nat) => if p = q then 0 else 5)
+      [[10, 11], [11, 12], [20, 21]] (1 / 100) (11 / 10) 1 = [0, 1] := by decide +kernel
 
 example : Gen.junction_shift 5 2 2 = 3 ∧ Gen.junction_shift 1 2 2 = 1 := by decide
 
